@@ -87,6 +87,12 @@ def make_resolver(tn, fd, wrap=None, methods_for=None):
                 ext = types.MappingProxyType(ext)   # `extensions` is declared as a Mapping: a read-only view is one
             # applications subclass ResolverError (its documentation invites it): every other error is of a subclass
             cls = ResolverError if len(b[1]) % 2 else _resolver_error_subclass(ResolverError)
+            if GS.nullable(GS.parse_t(fd["type"]))[0] == "list" and isinstance(b[2], dict) and b[2].get("code", 0) in (1, 2):
+                # a list field served by a generator that fails when it is consumed: still this field's resolver error
+                def failing():
+                    raise cls(b[1], extensions=ext)
+                    yield  # pragma: no cover
+                return failing()
             raise cls(b[1], extensions=ext)
         return objectify(b[1], methods_for) if methods_for else b[1]
 
